@@ -111,6 +111,7 @@ Section Sim.
   Variable F : string -> list val -> list (string * val) -> option (list val).
   Variable g : bool.
   Variable ff : bool.                  (* ite_flag_first: the theorems hold for both shapes *)
+  Variable go : bool.                  (* guard_outside: the theorems hold for both shapes *)
   Variable tids : list string.
   Variable is_state : var -> bool.
   Variable lv : list var.
@@ -460,9 +461,6 @@ Section Sim.
   Lemma srel_undef s_t nx o : srel s_t nx FUndef o.
   Proof. destruct o; exact I. Qed.
 
-  Lemma wrap_nest st : wrap st = nest_k (scond st) (strip_loops (skd st)) (loops_of (skd st)).
-  Proof. reflexivity. Qed.
-
   Lemma exec_assign_loops s x sub rhs loops :
     snd (exec_kind F g s (KAssign x sub rhs loops)) =
     match snd (run_loops F loops (fun s => assign_once F s x sub rhs) s) with
@@ -503,40 +501,20 @@ Section Sim.
     - apply srel_undef.
   Qed.
 
-  Lemma stmt_sim st s_t s_i nx :
-    stmt_facts is_state lv st -> (forall v, In v (loopvars (skd st)) -> In v lv) ->
+  (* the guard c holds in the interpreter's store: the loop nest around `if (c) stmt` (c may be the
+     constant True) does what exec_<Kind> does *)
+  Lemma kind_true_sim c k s_t s_i nx :
+    (forall y, In y (vars c) -> P0 y /\ ~ In y (kind_writes k)) ->
+    (forall y, In y (kind_reads true true k) -> is_ret y = false /\ (In y lv -> In y (loopvars k))) ->
+    (forall y, In y (kind_writes k) -> P0 y) ->
+    (forall v, In v (loopvars k) -> is_state v = false /\ is_ret v = false) ->
+    loops_ok lv [] (loops_of k) = true ->
+    (forall v, In v (loopvars k) -> In v lv) ->
+    rbind (snd (eval F s_i c)) (fun v => lift (truth v)) = Ok true ->
     agree P0 s_t s_i ->
-    srel s_t nx (fexec' (wrap st) s_t nx) (snd (exec_stmt F g s_i st)).
+    srel s_t nx (fexec' (nest_k c (strip_loops k) (loops_of k)) s_t nx) (snd (exec_kind F g s_i k)).
   Proof.
-    intros [Hg Hr Hw Hloc Hlo] Hlv Ha.
-    rewrite wrap_nest. unfold exec_stmt. unfold writes in Hg, Hw.
-    remember (skd st) as k eqn:Esk. remember (scond st) as c eqn:Esc. clear Esk Esc.
-    assert (HinvT : Inv c s_i s_t).
-    { intros y Hy. apply Ha, Hg, Hy. }
-    assert (Hlid : forall v, In v (loop_idents (loops_of k)) -> In v (loopvars k)).
-    { intros v Hv. destruct k; cbn in *; try contradiction. exact Hv. }
-    assert (Hidc : forall v, In v (loop_idents (loops_of k)) -> ~ In v (vars c)).
-    { intros v Hv Hc. destruct (Hg v Hc) as [[_ H] _]. apply H, Hlv, Hlid, Hv. }
-    destruct (eval F s_i c) as [r cv] eqn:Ec.
-    destruct (rbind cv (fun v => lift (truth v))) as [[|]|u] eqn:Eb.
-    3:{ cbn. destruct u; exact I. }
-    2:{ (* guard false *)
-      cbn [snd].
-      assert (Hfalse : rbind (snd (eval F s_i c)) (fun v => lift (truth v)) = Ok false)
-        by (rewrite Ec; exact Eb).
-      pose proof (nest_false c EmptyString s_i nx Hfalse (strip_loops k) (loops_of k) s_t Hidc HinvT) as Hn.
-      unfold relU in Hn. unfold srel.
-      destruct (fexec' (nest_k c (strip_loops k) (loops_of k)) s_t nx) as [s' nx'|? ?|? ?|];
-        try contradiction; [|exact I].
-      destruct Hn as [-> Hn]. exists s_i, None. repeat split; auto.
-      - intros y Hy. rewrite Hn; [apply Ha, Hy|]. intros Hin. destruct Hy as [_ Hy]. apply Hy, Hlv, Hlid, Hin.
-      - intros y Hy. apply Hn. intros Hin. destruct (Hloc y (Hlid y Hin)). congruence. }
-    (* guard true *)
-    assert (Htrue : rbind (snd (eval F s_i c)) (fun v => lift (truth v)) = Ok true)
-      by (rewrite Ec; exact Eb).
-    assert (Esnd : snd (let (a, o) := exec_kind F g s_i k in ((rds r ++ a)%list, o))
-                   = snd (exec_kind F g s_i k)) by (destruct (exec_kind F g s_i k); reflexivity).
-    rewrite Esnd. clear Esnd.
+    intros Hg Hr Hw Hloc Hlo Hlv Htrue Ha.
     assert (Hc0 : forall y, In y (vars c) -> P0 y) by (intros y Hy; apply Hg, Hy).
     assert (HP0d : forall y, Pd [] y <-> P0 y).
     { intros y. unfold FortranTargetProofs.Pd. cbn [In]. tauto. }
@@ -577,6 +555,84 @@ Section Sim.
     - apply other_kind; auto.
     - apply other_kind; auto.
   Qed.
+
+  Lemma wrap_inside st : wrap false st = nest_k (scond st) (strip_loops (skd st)) (loops_of (skd st)).
+  Proof. reflexivity. Qed.
+
+  Lemma wrap_outside st :
+    wrap true st =
+    if is_true_const (scond st) then nest_k (EBool true) (strip_loops (skd st)) (loops_of (skd st))
+    else FIf (scond st) (nest_k (EBool true) (strip_loops (skd st)) (loops_of (skd st))).
+  Proof. unfold wrap. destruct (is_true_const (scond st)); reflexivity. Qed.
+
+  Lemma snd_exec_true r k s :
+    snd (let (a, o) := exec_kind F g s k in ((rds r ++ a)%list, o)) = snd (exec_kind F g s k).
+  Proof. destruct (exec_kind F g s k); reflexivity. Qed.
+
+  (* guard inside the loops (the lowering before fixes/C01_guard_outside_loops.patch) *)
+  Lemma stmt_sim_inside st s_t s_i nx :
+    stmt_facts is_state lv st -> (forall v, In v (loopvars (skd st)) -> In v lv) ->
+    agree P0 s_t s_i ->
+    srel s_t nx (fexec' (wrap false st) s_t nx) (snd (exec_stmt F g s_i st)).
+  Proof.
+    intros [Hg Hr Hw Hloc Hlo] Hlv Ha.
+    rewrite wrap_inside. unfold exec_stmt. unfold writes in Hg, Hw.
+    remember (skd st) as k eqn:Esk. remember (scond st) as c eqn:Esc. clear Esk Esc.
+    assert (HinvT : Inv c s_i s_t).
+    { intros y Hy. apply Ha, Hg, Hy. }
+    assert (Hlid : forall v, In v (loop_idents (loops_of k)) -> In v (loopvars k)).
+    { intros v Hv. destruct k; cbn in *; try contradiction. exact Hv. }
+    assert (Hidc : forall v, In v (loop_idents (loops_of k)) -> ~ In v (vars c)).
+    { intros v Hv Hc. destruct (Hg v Hc) as [[_ H] _]. apply H, Hlv, Hlid, Hv. }
+    destruct (eval F s_i c) as [r cv] eqn:Ec.
+    destruct (rbind cv (fun v => lift (truth v))) as [[|]|u] eqn:Eb.
+    3:{ cbn. destruct u; exact I. }
+    2:{ (* guard false: the loops still run, without effect *)
+      cbn [snd].
+      assert (Hfalse : rbind (snd (eval F s_i c)) (fun v => lift (truth v)) = Ok false)
+        by (rewrite Ec; exact Eb).
+      pose proof (nest_false c EmptyString s_i nx Hfalse (strip_loops k) (loops_of k) s_t Hidc HinvT) as Hn.
+      unfold relU in Hn. unfold srel.
+      destruct (fexec' (nest_k c (strip_loops k) (loops_of k)) s_t nx) as [s' nx'|? ?|? ?|];
+        try contradiction; [|exact I].
+      destruct Hn as [-> Hn]. exists s_i, None. repeat split; auto.
+      - intros y Hy. rewrite Hn; [apply Ha, Hy|]. intros Hin. destruct Hy as [_ Hy]. apply Hy, Hlv, Hlid, Hin.
+      - intros y Hy. apply Hn. intros Hin. destruct (Hloc y (Hlid y Hin)). congruence. }
+    rewrite snd_exec_true. apply kind_true_sim; auto. rewrite Ec. exact Eb.
+  Qed.
+
+  (* guard outside the loops: exactly the interpreter's order (guard, then bounds, then the loops) *)
+  Lemma stmt_sim_outside st s_t s_i nx :
+    stmt_facts is_state lv st -> (forall v, In v (loopvars (skd st)) -> In v lv) ->
+    agree P0 s_t s_i ->
+    srel s_t nx (fexec' (wrap true st) s_t nx) (snd (exec_stmt F g s_i st)).
+  Proof.
+    intros [Hg Hr Hw Hloc Hlo] Hlv Ha.
+    rewrite wrap_outside. unfold exec_stmt. unfold writes in Hg, Hw.
+    remember (skd st) as k eqn:Esk. remember (scond st) as c eqn:Esc. clear Esk Esc.
+    assert (Hfr : eval F s_t c = eval F s_i c).
+    { apply eval_frame. intros y Hy. apply Ha, Hg, Hy. }
+    assert (Hbody : rbind (snd (eval F s_i c)) (fun v => lift (truth v)) = Ok true ->
+              srel s_t nx (fexec' (nest_k (EBool true) (strip_loops k) (loops_of k)) s_t nx)
+                   (snd (exec_kind F g s_i k))).
+    { intros _. apply kind_true_sim; auto. intros y []. }
+    destruct (eval F s_i c) as [r cv] eqn:Ec. cbn [snd] in Hbody.
+    destruct (is_true_const c) eqn:Etc.
+    - (* no conditional at all *)
+      rewrite (is_true_const_eq c Etc) in Ec. cbn in Ec. injection Ec as <- <-. cbn [rbind lift truth].
+      rewrite snd_exec_true. apply Hbody. reflexivity.
+    - cbn [fexec]. destruct (tguard' s_t c) as [b|] eqn:Eg; [|apply srel_undef].
+      apply tguard_ok in Eg. rewrite Hfr in Eg. cbn [snd] in Eg. rewrite Eg.
+      destruct b.
+      + rewrite snd_exec_true. apply Hbody, Eg.
+      + cbn [snd srel]. exists s_i, None. repeat split; auto.
+  Qed.
+
+  Lemma stmt_sim st s_t s_i nx :
+    stmt_facts is_state lv st -> (forall v, In v (loopvars (skd st)) -> In v lv) ->
+    agree P0 s_t s_i ->
+    srel s_t nx (fexec' (wrap go st) s_t nx) (snd (exec_stmt F g s_i st)).
+  Proof. destruct go; [apply stmt_sim_outside|apply stmt_sim_inside]. Qed.
 
   (* ---- the whole body of a phase ---- *)
   Definition Rel (s_t0 s_t s_i : store) (evs : list event) : Prop :=
@@ -624,7 +680,7 @@ Section Sim.
   Lemma body_sim s_t0 nx0 : forall stmts s_t s_i evs,
     (forall st, In st stmts -> stmt_facts is_state lv st /\ forall v, In v (loopvars (skd st)) -> In v lv) ->
     Rel s_t0 s_t s_i evs ->
-    brel s_t0 nx0 (fexec_body' (lower stmts) s_t nx0) (run_list F g stmts (RRun s_i evs)).
+    brel s_t0 nx0 (fexec_body' (lower go stmts) s_t nx0) (run_list F g stmts (RRun s_i evs)).
   Proof.
     induction stmts as [|st stmts IH]; intros s_t s_i evs Hall HR.
     - cbn. split; [reflexivity|exact HR].
@@ -634,38 +690,38 @@ Section Sim.
       unfold lower. cbn [filter]. change (run_list F g (st :: stmts) (RRun s_i evs))
         with (run_list F g stmts (step F g st (RRun s_i evs))).
       destruct (emitted st) eqn:Ee.
-      + cbn [map fexec_body]. fold (lower stmts).
+      + cbn [map fexec_body]. fold (lower go stmts).
         destruct (Hall st (or_introl eq_refl)) as [Hf Hlv].
         pose proof (stmt_sim st s_t s_i nx0 Hf Hlv (proj1 HR)) as Hs.
         unfold step. unfold srel in Hs.
         destruct (snd (exec_stmt F g s_i st)) as [s_i' ev| |p|k| |].
-        * destruct (fexec' (wrap st) s_t nx0) as [s_t' nx'|s_t' nx'|s_t' k'|].
+        * destruct (fexec' (wrap go st) s_t nx0) as [s_t' nx'|s_t' nx'|s_t' k'|].
           -- destruct Hs as (s_i'' & ev' & E & -> & Ha & Hra). injection E as <- <-.
              apply IH; [exact Hall'|]. eapply Rel_next; eauto.
           -- destruct Hs as [_ [[E _]|E]]; discriminate.
           -- destruct Hs as [_ E]; discriminate.
           -- exact I.
         * rewrite run_list_stop.
-          destruct (fexec' (wrap st) s_t nx0) as [s_t' nx'|s_t' nx'|s_t' k'|]; cbn [brel].
+          destruct (fexec' (wrap go st) s_t nx0) as [s_t' nx'|s_t' nx'|s_t' k'|]; cbn [brel].
           -- destruct Hs as (? & ? & E & _); discriminate.
           -- destruct Hs as [-> [[_ ->]|E]]; [split; [reflexivity|exact HR]|discriminate].
           -- destruct Hs as [_ E]; discriminate.
           -- exact I.
         * rewrite run_list_stop.
-          destruct (fexec' (wrap st) s_t nx0) as [s_t' nx'|s_t' nx'|s_t' k'|]; cbn [brel].
+          destruct (fexec' (wrap go st) s_t nx0) as [s_t' nx'|s_t' nx'|s_t' k'|]; cbn [brel].
           -- destruct Hs as (? & ? & E & _); discriminate.
           -- destruct Hs as [-> [[E _]|E]]; [discriminate|]. injection E as ->. split; [reflexivity|exact HR].
           -- destruct Hs as [_ E]; discriminate.
           -- exact I.
         * rewrite run_list_stop.
-          destruct (fexec' (wrap st) s_t nx0) as [s_t' nx'|s_t' nx'|s_t' k'|]; cbn [brel].
+          destruct (fexec' (wrap go st) s_t nx0) as [s_t' nx'|s_t' nx'|s_t' k'|]; cbn [brel].
           -- destruct Hs as (? & ? & E & _); discriminate.
           -- destruct Hs as [_ [[E _]|E]]; discriminate.
           -- destruct Hs as [-> E]. injection E as ->. split; [reflexivity|exact HR].
           -- exact I.
         * rewrite run_list_crash. apply brel_crash.
         * rewrite run_list_crash. apply brel_crash.
-      + fold (lower stmts). destruct (skip_step st s_i evs Ee) as [E|[u [e0 E]]]; rewrite E.
+      + fold (lower go stmts). destruct (skip_step st s_i evs Ee) as [E|[u [e0 E]]]; rewrite E.
         * apply IH; assumption.
         * rewrite run_list_crash. apply brel_crash.
   Qed.
@@ -675,8 +731,8 @@ Section Sim.
   Hypothesis Hsplit : forall y, is_state y = persistent y || is_ret y.
   Hypothesis Hlocal : forall v, In v lv -> is_state v = false.
 
-  Notation fcall' := (fcall F g true ff true true true tids is_state).
-  Notation fcalls' := (fcalls F g true ff true true true tids is_state).
+  Notation fcall' := (fcall F g true ff true true true go tids is_state).
+  Notation fcalls' := (fcalls F g true ff true true true go tids is_state).
   Notation istep' := (istep F g tids persistent).
   Notation isteps' := (isteps F g tids persistent).
 
@@ -729,7 +785,7 @@ Section Sim.
     pose proof (body_sim (enter is_state s_t) (fp_next ph) (fp_stmts ph) (enter is_state s_t) s_i []
                   (fun st Hst => HP ph st Hin Hst) (enter_Rel s_t s_i r HC)) as Hb.
     destruct (run_list F g (fp_stmts ph) (RRun s_i [])) as [s' evs|s' evs [|p|k]|u];
-      destruct (fexec_body' (lower (fp_stmts ph)) (enter is_state s_t) (fp_next ph)) as [s_t' nx'|s_t' nx'|s_t' k'|];
+      destruct (fexec_body' (lower go (fp_stmts ph)) (enter is_state s_t) (fp_next ph)) as [s_t' nx'|s_t' nx'|s_t' k'|];
       cbn [brel] in Hb; cbn [orel]; try contradiction; try exact I;
       destruct Hb as [-> Hb]; (split; [reflexivity|]); eapply leave_CRel; eauto.
   Qed.
@@ -789,17 +845,17 @@ Qed.
 (* ---------- the theorem ---------- *)
 Section Pipeline.
   Variable F : string -> list val -> list (string * val) -> option (list val).
-  Variables g ff : bool.
+  Variables g ff go : bool.
   Variable tids : list string.
   Variables is_state persistent : var -> bool.
   Hypothesis Hsplit : forall y, is_state y = persistent y || is_ret y.
 
   Theorem pipeline P : supported is_state P = true ->
     forall n s_t s_i r nx, CRel is_state persistent s_t s_i r ->
-      orel is_state persistent (fcalls F g true ff true true true tids is_state P n s_t nx)
+      orel is_state persistent (fcalls F g true ff true true true go tids is_state P n s_t nx)
                                (isteps F g tids persistent P n s_i r nx).
   Proof.
-    intros HS. apply (calls_sim F g ff tids is_state (prog_loopvars P) persistent Hsplit
+    intros HS. apply (calls_sim F g ff go tids is_state (prog_loopvars P) persistent Hsplit
                         (supported_local is_state P HS) P (supported_facts is_state P HS)).
   Qed.
 
@@ -807,25 +863,26 @@ Section Pipeline.
   Corollary pipeline_builder lsr lbr tok bl P : build_prog lsr lbr is_state tok bl = Some P ->
     supported is_state P = true ->
     forall n s first, init_ok persistent s ->
-      orel is_state persistent (fcalls F g true ff true true true tids is_state P n s first)
+      orel is_state persistent (fcalls F g true ff true true true go tids is_state P n s first)
                                (isteps F g tids persistent P n s empty first).
   Proof. intros _ HS n s first Hi. apply pipeline; [exact HS|apply init_CRel, Hi]. Qed.
 End Pipeline.
 
 (* ---------- the statement, as a function of the shape switches ---------- *)
-Definition pipeline_statement (cond_honoured ite_flag_first ubound_m1 switch_exits next_first : bool) : Prop :=
+Definition pipeline_statement (cond_honoured ite_flag_first ubound_m1 switch_exits next_first guard_outside : bool)
+  : Prop :=
   forall F g tids (is_state persistent : var -> bool) lsr lbr tok bl P,
     (forall y, is_state y = persistent y || is_ret y) ->
     build_prog lsr lbr is_state tok bl = Some P ->
     supported is_state P = true ->
     forall n s first, init_ok persistent s ->
       orel is_state persistent
-           (fcalls F g cond_honoured ite_flag_first ubound_m1 switch_exits next_first tids is_state P n s first)
+           (fcalls F g cond_honoured ite_flag_first ubound_m1 switch_exits next_first guard_outside tids is_state P n s first)
            (isteps F g tids persistent P n s empty first).
 
 Definition compiles_statement (ne_fortran : bool) : Prop := forall P, compiles ne_fortran P = true.
 
-Theorem pipeline_holds ff : pipeline_statement true ff true true true.
+Theorem pipeline_holds ff go : pipeline_statement true ff true true true go.
 Proof.
   intros F g tids is_state persistent lsr lbr tok bl P Hs Hb HS n s first Hi.
   eapply pipeline_builder; eauto.
@@ -900,15 +957,15 @@ Qed.
 Definition mk_store (l : list (var * val)) : store := fold_left (fun s p => upd s (fst p) (snd p)) l empty.
 
 (* every refutation below has this form *)
-Lemma refute ch ff um sw nf bl P init n first univ :
+Lemma refute ch ff um sw nf go bl P init n first univ :
   build_prog true true st_of "<exec>" bl = Some P ->
   supported st_of P = true ->
   forallb (fun p => ps_of (fst p) && negb (is_ret (fst p))) init = true ->
   forallb st_of univ = true ->
-  (let t := fcalls F03 true ch ff um sw nf [] st_of P n (mk_store init) first in
+  (let t := fcalls F03 true ch ff um sw nf go [] st_of P n (mk_store init) first in
    let i := isteps F03 true [] ps_of P n (mk_store init) empty first in
    defined_pair t i && negb (agree_on univ t i)) = true ->
-  ~ pipeline_statement ch ff um sw nf.
+  ~ pipeline_statement ch ff um sw nf go.
 Proof.
   intros Hb HS Hi Hu Hw Hst. cbv zeta in Hw. apply andb_true_iff in Hw. destruct Hw as [Hd Hn].
   specialize (Hst F03 true [] st_of ps_of true true "<exec>" bl P st_split Hb HS n (mk_store init) first
@@ -923,20 +980,20 @@ Definition plus (a b : expr) : expr := ENary NSum [a; b].
 (* lower_inst ignores statement conditions: `1 if <p>x > 2 else 3` is 3 *)
 Definition wit_cond : list bphase :=
   ph1 [BStmt (KAssign "<p>z" None (EIf (gt (EVar "<p>x") (EInt 2)) (EInt 1) (EInt 3)) [])].
-Lemma cond_refuted ff um sw nf : ~ pipeline_statement false ff um sw nf.
+Lemma cond_refuted ff um sw nf go : ~ pipeline_statement false ff um sw nf go.
 Proof.
-  destruct ff, um, sw, nf;
-    (eapply (refute _ _ _ _ _ wit_cond _ [("<p>x", VInt 3); ("<p>z", VInt 0)] 1 "pa" ["<p>z"]);
+  destruct ff, um, sw, nf, go;
+    (eapply (refute _ _ _ _ _ _ wit_cond _ [("<p>x", VInt 3); ("<p>z", VInt 0)] 1 "pa" ["<p>z"]);
      [vm_compute; reflexivity|vm_compute; reflexivity|reflexivity|reflexivity|vm_compute; reflexivity]).
 Qed.
 
 (* do v = lo, hi instead of hi - 1: one trip too many *)
 Definition wit_loop : list bphase :=
   ph1 [BStmt (KAssign "<p>z" None (plus (EVar "<p>z") (EVar "i")) [("i", EInt 0, EInt 3)])].
-Lemma ubound_refuted ff sw nf : ~ pipeline_statement true ff false sw nf.
+Lemma ubound_refuted ff sw nf go : ~ pipeline_statement true ff false sw nf go.
 Proof.
-  destruct ff, sw, nf;
-    (eapply (refute _ _ _ _ _ wit_loop _ [("<p>z", VInt 0)] 1 "pa" ["<p>z"]);
+  destruct ff, sw, nf, go;
+    (eapply (refute _ _ _ _ _ _ wit_loop _ [("<p>z", VInt 0)] 1 "pa" ["<p>z"]);
      [vm_compute; reflexivity|vm_compute; reflexivity|reflexivity|reflexivity|vm_compute; reflexivity]).
 Qed.
 
@@ -944,18 +1001,18 @@ Qed.
 Definition wit_switch : list bphase :=
   [mkB "pa" "pa" [BStmt (KSwitch "pb"); BStmt (KAssign "<p>z" None (EInt 7) [])];
    mkB "pb" "pb" [BStmt (KAssign "<p>z" None (plus (EVar "<p>z") (EInt 1)) [])]].
-Lemma switch_refuted ff nf : ~ pipeline_statement true ff true false nf.
+Lemma switch_refuted ff nf go : ~ pipeline_statement true ff true false nf go.
 Proof.
-  destruct ff, nf;
-    (eapply (refute _ _ _ _ _ wit_switch _ [("<p>z", VInt 0)] 1 "pa" ["<p>z"]);
+  destruct ff, nf, go;
+    (eapply (refute _ _ _ _ _ _ wit_switch _ [("<p>z", VInt 0)] 1 "pa" ["<p>z"]);
      [vm_compute; reflexivity|vm_compute; reflexivity|reflexivity|reflexivity|vm_compute; reflexivity]).
 Qed.
 
 (* default successor assigned after the call: a SwitchPhase is overwritten *)
-Lemma next_refuted ff : ~ pipeline_statement true ff true true false.
+Lemma next_refuted ff go : ~ pipeline_statement true ff true true false go.
 Proof.
-  destruct ff;
-    (eapply (refute _ _ _ _ _ wit_switch _ [("<p>z", VInt 0)] 2 "pa" ["<p>z"]);
+  destruct ff, go;
+    (eapply (refute _ _ _ _ _ _ wit_switch _ [("<p>z", VInt 0)] 2 "pa" ["<p>z"]);
      [vm_compute; reflexivity|vm_compute; reflexivity|reflexivity|reflexivity|vm_compute; reflexivity]).
 Qed.
 
@@ -1006,12 +1063,41 @@ Qed.
 
 (* after 1..5 calls both models are defined (no FOUndef / IOCrash), agree on every field, and the
    runs go through a switch (call 3) and a failed step *)
-Example ex_runs : forall n, (n <= 5)%nat ->
-  let t := fcalls F03 true true true true true true ["final"; "mid"] st_of ex_P n (mk_store ex_init) "pa" in
+Example ex_runs : forall go n, (n <= 5)%nat ->
+  let t := fcalls F03 true true true true true true go ["final"; "mid"] st_of ex_P n (mk_store ex_init) "pa" in
   let i := isteps F03 true ["final"; "mid"] ps_of ex_P n (mk_store ex_init) empty "pa" in
   defined_pair t i && agree_on ex_univ t i = true.
 Proof.
-  intros n Hn. do 6 (destruct n as [|n]; [vm_compute; reflexivity|]). lia.
+  intros go n Hn. destruct go; (do 6 (destruct n as [|n]; [vm_compute; reflexivity|])); lia.
+Qed.
+
+(* ---------- where the two lowerings of a guarded looped assignment differ ----------
+   `n` is assigned only under the guard that also guards the loop whose bound is n.  While the guard
+   is false the interpreter does not look at the loop; with the guard lowered INSIDE the loops
+   (guard_outside = false) the emitted code evaluates the bound int(n) of a variable without a
+   value: the target model is undefined on the first call (the relation then says nothing; the
+   compiled program dies with -ffpe-trap=invalid, corpus/C03/guarded_loop_bound.json).  With the
+   guard outside (fixes/C01_guard_outside_loops.patch) the model is defined and agrees. *)
+Definition wit_guard : list bphase :=
+  ph1 [BIf (gt (EVar "<p>x") (EInt 1));
+       BStmt (KAssign "n" None (plus (EVar "<p>x") (EInt 1)) []);
+       BStmt (KAssign "<p>z" None (plus (EVar "<p>z") (EVar "i")) [("i", EInt 0, EVar "n")]);
+       BEndIf;
+       BStmt (KAssign "<p>x" None (plus (EVar "<p>x") (EInt 1)) [])].
+Definition wit_guard_P : fprog :=
+  match build_prog true true st_of "<exec>" wit_guard with Some P => P | None => [] end.
+Definition wit_guard_init : list (var * val) := [("<p>x", VInt 0); ("<p>z", VInt 0)].
+
+Example guard_inside_undefined :
+  supported st_of wit_guard_P = true /\
+  fcalls F03 true true true true true true false [] st_of wit_guard_P 1 (mk_store wit_guard_init) "pa" = FOUndef /\
+  forall n, (n <= 4)%nat ->
+    let t := fcalls F03 true true true true true true true [] st_of wit_guard_P n (mk_store wit_guard_init) "pa" in
+    let i := isteps F03 true [] ps_of wit_guard_P n (mk_store wit_guard_init) empty "pa" in
+    defined_pair t i && agree_on ["<p>x"; "<p>z"] t i = true.
+Proof.
+  split; [vm_compute; reflexivity|]. split; [vm_compute; reflexivity|].
+  intros n Hn. do 5 (destruct n as [|n]; [vm_compute; reflexivity|]). lia.
 Qed.
 
 (* ---------- the interpreter's schedule: use of C02 ----------
